@@ -311,6 +311,8 @@ fn check_buffer(cx: &Ctx, st: &mut St, msgs: &[Msg], with_pending: bool) {
 /// start of a block), next messages with relative units around a payload that holds a newline.
 const PREV: &[&[u8]] = &[
     b"Z\n", b"@\n", b"B 300\n", b"A:X\n", b"A:B;\n", b"A:A:A\n", b"Z 'x'\n", b"Z #31\n", b"Z #2\n", b"A:K #9\n", b"A:K #2+1x\n", b"B #H\n",
+    // a block with a zero-padded length field whose data is a quote
+    b"Z #3001'\n", b"Z 1,#205it's!\n",
 ];
 const NEXT: &[&[u8]] = &[
     b"A:B;E\n",
